@@ -150,7 +150,10 @@ class RepeatedRawMetaItemWrapper(
         # iterating a meta wrapper yields its items, not its keys
         if isinstance(other, (RepeatedRawMetaItemWrapper, RepeatedMetaItemWrapper)):
             other = {key: other[key] for key in other.keys()}
-        super().update(other, **kwargs)
+        pairs = dict(other, **kwargs)
+        # all of them before any of them: a refused update must not have applied the keys in front of the offending one
+        internal.check_detachable(value for value in pairs.values() if isinstance(value, base.RawModel))
+        super().update(pairs)
 
     def keys(self) -> RepeatedRawMetaKeysView:
         return RepeatedRawMetaKeysView(self)
@@ -304,7 +307,10 @@ class RepeatedMetaItemWrapper(
         # iterating a meta wrapper yields its items, not its keys
         if isinstance(other, (RepeatedRawMetaItemWrapper, RepeatedMetaItemWrapper)):
             other = {key: other[key] for key in other.keys()}
-        super().update(other, **kwargs)
+        pairs = dict(other, **kwargs)
+        # all of them before any of them: a refused update must not have applied the keys in front of the offending one
+        internal.check_detachable(value for value in pairs.values() if isinstance(value, base.RawModel))
+        super().update(pairs)
 
     def keys(self) -> RepeatedMetaKeysView:
         return RepeatedMetaKeysView(self)
